@@ -514,9 +514,9 @@ func Sharing(r *rand.Rand, o SharingOpts) *Grammar {
 	g.NTs[1] = g.Mk(OpAny, alts...)
 	consumer := func() *Expr {
 		m := func() *Expr { return g.Ref(1) }
-		n := 8
+		n := 11
 		if o.Trims {
-			n = 11
+			n = 14
 		}
 		switch r.Intn(n) {
 		case 0:
@@ -535,7 +535,13 @@ func Sharing(r *rand.Rand, o SharingOpts) *Grammar {
 			return g.Mk(OpSeqOf, g.Mk(OpOpt, m()), leaf())
 		case 7:
 			return m()
-		case 8, 9:
+		case 8:
+			return g.Mk(OpSingle, m())
+		case 9:
+			return g.Mk(OpAny, g.Mk(OpSingle, m()), leaf())
+		case 10:
+			return g.Mk(OpSuppress, g.Mk(OpAny, m(), leaf()))
+		case 11, 12:
 			e := g.Mk(OpRTrim, m())
 			e.C = byte(1 + r.Intn(2)) // WsSpaces, WsSpacesNl
 			return e
